@@ -99,6 +99,15 @@ class LoopHooks(Hooks):
         if dotted == "warnings.warn":
             self.calls["warn"].append(node)
             return None
+        if dotted in ("torch.round", "round", "torch.floor", "torch.ceil", "math.floor", "math.ceil") and len(args) == 1:
+            # rounding of a scalar: exact on a concrete time, an opaque (non-identity) function of a symbolic one
+            import math as _m
+            x = args[0].const_value() if isinstance(args[0], Rat) else args[0]
+            if isinstance(x, (Fraction, int)) and not isinstance(x, bool):
+                kind = dotted.split(".")[-1]
+                return Fraction(round(x) if kind == "round" else _m.floor(x) if kind == "floor" else _m.ceil(x))
+            if isinstance(args[0], Rat):
+                return nf.fn(dotted.split(".")[-1], args[0])
         if dotted in ("torch.isclose", "math.isclose") and len(args) >= 2:
             # exact meaning on concrete times: |a - b| <= atol + rtol * |b| (torch) / max(rel * max(|a|, |b|), abs) (math)
             def num(x):
